@@ -130,6 +130,101 @@ class C13Executor(SymListMixin, ET.ETreeMixin, Executor):
             return VStr(PYSTR_TD(v.t))
         return super().to_str(st, v, formatted)
 
+    # ---- identity of elements of a CONCRETE tree shape: every node is its own object (Element defines no __eq__, so == is identity too);
+    # without this `element is not root` was an unconstrained equation between two element constants
+    def compare(self, st, op, a, b, node):
+        if op in ("Is", "IsNot", "Eq", "NotEq"):
+            na, nb = ET.node_of(a), ET.node_of(b)
+            if na is not None and nb is not None:
+                return [(st, VBool((na is nb) == (op in ("Is", "Eq"))))]
+        return super().compare(st, op, a, b, node)
+
+    # ---- collections.deque used as a work list: a list with popleft() / appendleft()
+    def call(self, st, f, args, kwargs, node):
+        if isinstance(f, VFunc) and f.how == "ext" and f.a == "collections.deque" and len(args) <= 1 and not kwargs:
+            items = self.concrete_items(st, args[0]) if args else []
+            if items is not None:
+                return [(st, self.new_list(st, items))]
+        return super().call(st, f, args, kwargs, node)
+
+    # ---- list.sort on a list of CONCRETE length whose sort keys are concrete: the real (stable) order; an order comparison that
+    # reaches a non-orderable value (e.g. two Elements after equal (y, x)) raises TypeError as CPython does
+    def list_method(self, st, obj, name, args, kwargs, node):
+        o = st.obj(obj.ref)
+        if name == "popleft" and o.kind == "list" and o.data is not None and not args:
+            return super().list_method(st, obj, "pop", [VInt(0)], kwargs, node)
+        if name == "appendleft" and o.kind == "list" and o.data is not None and len(args) == 1:
+            return super().list_method(st, obj, "insert", [VInt(0), args[0]], kwargs, node)
+        if name == "sort" and o.kind == "list" and o.data is not None and not args and set(kwargs) <= {"key", "reverse"}:
+            r = self._sorted_items(st, list(o.data), kwargs, node)
+            if r == "raised":
+                return []
+            if r is not None:
+                cur, items = r
+                self._check_not_frozen(cur, obj.ref, node)
+                self.note_store(cur, obj.ref, node)
+                cur.wobj(obj.ref).data = items
+                return [(cur, NONE)]
+        return super().list_method(st, obj, name, args, kwargs, node)
+
+    def _sorted_items(self, st, data, kwargs, node):
+        """stable sort of `data` (concrete length) by concrete keys -> (state, sorted items) | "raised" (TypeError, as CPython) | None (not modelled)"""
+        from fractions import Fraction
+
+        class _NoOrder:
+            def __lt__(self, other):
+                raise TypeError("'<' not supported")
+            __gt__ = __le__ = __ge__ = __lt__
+
+            def __eq__(self, other):
+                return self is other
+            __hash__ = object.__hash__
+
+        def key_of(v):
+            if isinstance(v, (VInt, VStr, VBool)):
+                c = v.const()
+                return c if c is not None else None
+            if isinstance(v, VReal):
+                t = z3.simplify(v.t)
+                return Fraction(t.numerator_as_long(), t.denominator_as_long()) if z3.is_rational_value(t) else None
+            if isinstance(v, VTuple):
+                ks = [key_of(x) for x in v.items]
+                return None if any(k is None for k in ks) else tuple(ks)
+            if isinstance(v, (VExt, VRef)) or v is NONE:
+                return _NoOrder()
+            return None
+        keys, cur = [], st
+        for item in data:
+            kv = item
+            if "key" in kwargs and kwargs["key"] is not NONE:
+                r = self.call(cur, kwargs["key"], [item], {}, node)
+                if len(r) != 1:
+                    return None
+                cur, kv = r[0]
+            k = key_of(kv)
+            if k is None:
+                return None
+            keys.append(k)
+        rev = kwargs.get("reverse")
+        if not (rev is None or (isinstance(rev, VBool) and rev.const() is not None)):
+            return None
+        try:
+            order = sorted(range(len(keys)), key=lambda i: keys[i], reverse=bool(rev.const()) if rev is not None else False)
+        except TypeError:
+            self.raise_in(cur, self.mk_exc("TypeError"))
+            return "raised"
+        return cur, [data[i] for i in order]
+
+    def b_sorted(self, st, args, kwargs, node):
+        items = self.concrete_items(st, args[0]) if len(args) == 1 else None
+        if items is not None and set(kwargs) <= {"key", "reverse"}:
+            r = self._sorted_items(st, items, kwargs, node)
+            if r == "raised":
+                return []
+            if r is not None:
+                return [(r[0], self.new_list(r[0], r[1]))]
+        return super().b_sorted(st, args, kwargs, node)
+
     # ---- exact %-formatting / str.format for integer and string fields; anything else is an over-approximation
     def _fmt_field(self, st, v, spec):
         """text of one field for spec '' | 'd' | '0Nd' | 's' (None = not modelled)"""
@@ -812,6 +907,129 @@ def rtf_loops(repo=None):
             "t": outer.target.id, "text": fnode.args.args[1].arg}
 
 
+def rtf_helper_loop(repo=None):
+    """The row-pairing loop when it lives in a HELPER that receives the two position lists and the text as parameters:
+    `for t in A:` whose body appends a triple (t, r, text[t:r]) with r taken from B by an inner loop or next(<genexpr>).
+    -> dict(qual, fnode, A, B, text, built, t, outer/inner ordinals, method) or None"""
+    m = loader.module(RTF, repo)
+    for q, fnode in m.functions.items():
+        params = [a.arg for a in fnode.args.args]
+        loops = [n for n in ast.walk(fnode) if isinstance(n, (ast.For, ast.While))]
+        loops.sort(key=lambda n: (n.lineno, n.col_offset))
+        for lp in loops:
+            if not (isinstance(lp, ast.For) and isinstance(lp.iter, ast.Name) and lp.iter.id in params and isinstance(lp.target, ast.Name)):
+                continue
+            t = lp.target.id
+            for n in ast.walk(lp):
+                if isinstance(n, ast.Call) and isinstance(n.func, ast.Attribute) and n.func.attr == "append" and isinstance(n.func.value, ast.Name) \
+                        and len(n.args) == 1 and isinstance(n.args[0], ast.Tuple) and len(n.args[0].elts) == 3:
+                    e0, e1, e2 = n.args[0].elts
+                    if isinstance(e0, ast.Name) and e0.id == t and isinstance(e2, ast.Subscript) and isinstance(e2.value, ast.Name) and e2.value.id in params \
+                            and isinstance(e2.slice, ast.Slice):
+                        others = [x.iter.id for x in ast.walk(lp) if isinstance(x, (ast.For, ast.comprehension)) and x is not lp
+                                  and isinstance(x.iter, ast.Name) and x.iter.id in params and x.iter.id != lp.iter.id]
+                        if len(set(others)) != 1:
+                            continue
+                        inner = [l for l in lp.body if isinstance(l, ast.For) and isinstance(l.iter, ast.Name) and l.iter.id == others[0]]
+                        return {"qual": q, "fnode": fnode, "A": lp.iter.id, "B": others[0], "text": e2.value.id, "built": n.func.value.id, "t": t,
+                                "outer": loops.index(lp), "inner": loops.index(inner[0]) if inner else None, "params": params,
+                                "method": "." in q and params[:1] == ["self"]}
+    return None
+
+
+def rtf_helper_contracts(reg, H):
+    """contract of the helper: for ascending position lists, the result is the list of (start, first end strictly after it,
+    text[start:end]) for the starts that have a later end, in order; the caller's lists satisfy the precondition (call-pre)"""
+    install_regex_models(reg, ("_RE_PAGE_BREAK", "_RE_TROWD", "_RE_ROW"))
+    NTp, NRp = z3.Int("n_row_starts"), z3.Int("n_row_ends")
+    TA, RB = z3.Function("row_start_at", I, I), z3.Function("row_end_at", I, I)
+
+    def p_seq(n, f):
+        return Maker(lambda ex, st, name: [(n >= 0, VSeq(n, lambda k: VInt(f(k)), "int"))], desc="ascending list of positions")
+
+    def parts(args, st):
+        ex = ENTRY_EX[0]
+        A, B = ex.as_seq(st, args[H["A"]]), ex.as_seq(st, args[H["B"]])
+        return A, B, args[H["text"]].t
+
+    def spec(A, B, TXT, tag):
+        NT, NR = A.length, B.length
+        T, R = (lambda k: ops.int_term(A.elem(k))), (lambda k: ops.int_term(B.elem(k)))
+        IDX, K = z3.Function(f"first_end_after!{tag}", I, I), z3.Int(f"paired_starts!{tag}")
+        t, j, k = z3.Int("t!d"), z3.Int("j!d"), z3.Int("k!d")
+        defs = z3.And(z3.ForAll([t], z3.And(IDX(t) >= 0, IDX(t) <= NR, z3.Implies(IDX(t) < NR, R(IDX(t)) > t))),
+                      z3.ForAll([t, j], z3.Implies(z3.And(j >= 0, j < IDX(t)), R(j) <= t)),
+                      K >= 0, K <= NT, z3.ForAll([k], z3.Implies(z3.And(k >= 0, k < NT), (k < K) == (IDX(T(k)) < NR))))
+        rows = VSeq(K, lambda k: VTuple([VInt(T(k)), VInt(R(IDX(T(k)))), VStr(z3.SubString(TXT, T(k), R(IDX(T(k))) - T(k)))]), "row")
+        return defs, rows, R
+
+    def ascending(S):
+        a, b = z3.Int(fresh_name("a")), z3.Int(fresh_name("b"))
+        e = lambda k: ops.int_term(S.elem(k))
+        return z3.And(S.length >= 0, z3.ForAll([a], z3.Implies(z3.And(a >= 0, a < S.length), e(a) >= 0)),
+                      z3.ForAll([a, b], z3.Implies(z3.And(a >= 0, a < b, b < S.length), e(a) < e(b))))
+
+    def requires(c):
+        ENTRY_EX[0] = c.ex
+        A, B, _t = parts(c.args, c.entry)
+        if A is None or B is None:
+            return z3.BoolVal(False)
+        return z3.And(ascending(A), ascending(B))
+
+    def tag_of(args):
+        ids = []
+        for nm in (H["A"], H["B"], H["text"]):
+            v = args[nm]
+            ids.append(v.t.get_id() if hasattr(v, "t") else (v.length.get_id() if isinstance(v, VSeq) else getattr(v, "ref", 0)))
+        return "_".join(str(i) for i in ids)
+
+    def ctx_tag(c):
+        return tag_of(c.args)
+
+    def hyps(c):
+        A, B, TXT = parts(c.args, c.entry)
+        return spec(A, B, TXT, ctx_tag(c))[0]
+
+    def returns(c):
+        A, B, TXT = parts(c.args, c.entry)
+        return spec(A, B, TXT, ctx_tag(c))[1]
+
+    def lc_spec(lc):
+        args = {nm: lc.entry.lookup(nm) for nm in H["params"]}
+        A, B = lc.ex.as_seq(lc.entry, args[H["A"]]), lc.ex.as_seq(lc.entry, args[H["B"]])
+        return spec(A, B, args[H["text"]].t, tag_of(args))
+
+    def lst(lc, st=None):
+        st = st or lc.st
+        return lc.ex.as_seq(st, st.lookup(H["built"]))
+
+    def inv_outer(lc):
+        _d, rows, _R = lc_spec(lc)
+        return seq_eq(lst(lc), take(rows, z3.If(lc.i < rows.length, lc.i, rows.length)))
+
+    def inv_inner(lc):
+        _d, _rows, R = lc_spec(lc)
+        j = z3.Int(fresh_name("j"))
+        return z3.And(seq_eq(lst(lc), lst(lc, lc.entry)), z3.ForAll([j], z3.Implies(z3.And(j >= 0, j < lc.i), R(j) <= ops.int_term(lc[H["t"]]))))
+    shape = ("list", ("tuple", ("int", "int", "str")))
+    loops = {H["outer"]: LoopSpec(inv=inv_outer, havoc=((H["built"], shape),), label="row-starts")}
+    if H["inner"] is not None:
+        loops[H["inner"]] = LoopSpec(inv=inv_inner, havoc=((H["built"], shape),), label="first-terminator-after")
+    params = []
+    for nm in H["params"]:
+        params.append((nm, p_seq(NTp, TA) if nm == H["A"] else p_seq(NRp, RB) if nm == H["B"] else p_str() if nm == H["text"] else p_unk()))
+    if "." in H["qual"] and not H["method"]:
+        params = [("self!static", p_unk())] + params        # a @staticmethod is called through the instance: the engine passes it first
+    helper = FnContract(target=f"{RTF}::{H['qual']}", params=params, requires=requires, hyps=hyps, returns=returns, raises=[], loops=loops,
+                        note="row start / first row end pairing for ascending position lists of any length (symbolic)")
+    caller = FnContract(target=f"{RTF}::_RtfParser._extract_tables", params=[("self", p_obj("_RtfParser", {})), ("text", p_str())], raises=[Raises("Exception", sub=True)],
+                        modifies=("self",), note="hands the regex match positions (ascending: call-pre) to the pairing helper")
+    return [helper, caller]
+
+
+ENTRY_EX = [None]
+
+
 def rtf_contracts(reg):
     from pyvc import solve as _solve
     if small_scope_refuter not in _solve.EXTRA_REFUTERS:
@@ -827,6 +1045,12 @@ def _rtf_contracts(reg):
     install_regex_models(reg, ("_RE_PAGE_BREAK", "_RE_TROWD", "_RE_ROW"))
     L = rtf_loops()
     if L is None or not L["built"]:
+        H = rtf_helper_loop()
+        if H is not None:
+            try:
+                return rtf_helper_contracts(reg, H)
+            except Exception:  # noqa  (shape recognised only partly: reported as unknown by model_invariants)
+                return []
         return []      # shape not recognised: model_invariants reports it as `unknown` (the native RTF search decides)
     rxT, rxR = z3.Const("regex!_RE_TROWD", REGEX), z3.Const("regex!_RE_ROW", REGEX)
     TXT = z3.String("text")
@@ -960,7 +1184,7 @@ def model_invariants(repo, tier):
     from pyvc.flow import ground_obligation
     from contracts import C13_bounded as Bm
     obls = []
-    L = rtf_loops(repo)
+    L = rtf_loops(repo) or rtf_helper_loop(repo)
     obls.append(ground_obligation("C13/rtf_extractor.py::_RtfParser._extract_tables/shape#row-matching-loop-recognised", bool(L and L["built"]),
                                   "loop over the \\trowd match positions appending (start, end, text) rows" if L else "not found: the symbolic row-matching contract is not applied",
                                   RTF, kind="shape", definite=False))
@@ -1227,7 +1451,7 @@ def call_sites(repo, tier):
 
 
 SPLIT = {"w_xlsx": 5, "w_epub": 2, "w_html": 2, "w_xls": 2}     # long walkers are split over the process pool (same obligation ids, merged)
-EXTRA = [_walker_job(w, k, SPLIT.get(w, 1)) for w in ("w_xlsx", "w_epub", "w_html", "w_xls", "w_ods", "w_docx", "w_odt", "w_odp", "w_pptx", "w_iter", "w_rtf")
+EXTRA = [_walker_job(w, k, SPLIT.get(w, 1)) for w in ("w_xlsx", "w_epub", "w_html", "w_xls", "w_ods", "w_docx", "w_odt", "w_odp", "w_odp_slide", "w_pptx", "w_iter", "w_rtf")
          for k in range(SPLIT.get(w, 1))] + [model_invariants, call_sites]
 
 
@@ -1312,3 +1536,7 @@ BOUNDED = ["walkers docx _extract_tables_from_context, odt _extract_tables, odp 
            "html / epub documents are fed as parser events through the real handlers (_HtmlTreeBuilder, _XhtmlTextExtractor), including empty cells in self-closed form"]
 
 REPLAY_UNKNOWN = True    # undecided / out-of-subset items are searched natively (replay) before being reported UNDECIDED
+# Loop-invariant obligations exist only while the function has the loop: when it is moved into a helper (which then carries them under
+# its own contract, e.g. the RTF pairing loop) or becomes a comprehension, they may disappear as long as the function still generates
+# its other obligations (postcondition / raises / bounded walker); an unrecognised loop shape is reported by a `shape#` obligation.
+LOCK_OPTIONAL_KINDS = ("inv-init", "inv-preserve")
